@@ -52,6 +52,18 @@ func (inv execInvocation) GobEncode() ([]byte, error) {
 	fv := bigslice.FuncByIndex(inv.Func)
 	for i, arg := range inv.Args {
 		typ := fv.In(i)
+		// Nil arguments (untyped nil, or a nil pointer, which gob refuses to
+		// transmit) are sent as a flag; the receiver passes nil to the Func.
+		isNil := arg == nil
+		if v := reflect.ValueOf(arg); !isNil && v.Kind() == reflect.Ptr && v.IsNil() {
+			isNil = true
+		}
+		if err := enc.Encode(isNil); err != nil {
+			return nil, fmt.Errorf("encoding arg %d of type %v: %v", i, typ, err)
+		}
+		if isNil {
+			continue
+		}
 		if typ.Kind() == reflect.Interface {
 			// Pass the address of arg so Encode sees (and hence sends) a value
 			// of interface type.  If arg is of a concrete type and we passed
@@ -94,6 +106,13 @@ func (inv *execInvocation) GobDecode(p []byte) error {
 	inv.Args = make([]interface{}, fv.NumIn())
 	for i := range inv.Args {
 		typ := fv.In(i)
+		var isNil bool
+		if err := dec.Decode(&isNil); err != nil {
+			return fmt.Errorf("decoding arg %d of type %v: %v", i, typ, err)
+		}
+		if isNil {
+			continue
+		}
 		var v reflect.Value
 		switch {
 		case typ == typResultPtr:
